@@ -271,7 +271,8 @@ if cmdline.include:
 
 def skip_file(fn):
     # does file name match regex from option --skip?
-    return cmdline.skip and re.search(r'\A' + cmdline.skip + r'\Z', fn)
+    # NB: group the expression, it may be an alternative like 'a|b'
+    return cmdline.skip and re.search(r'\A(?:' + cmdline.skip + r')\Z', fn)
 
 todo = cmdline.file
 done = []
